@@ -255,8 +255,9 @@ int main(int argc, char **argv)
         sets.push_back({3, 3, {L0, L1, LI}, SYMMETRIC, MID});
         sets.push_back({3, 4, A2, FULL, MID});
         sets.push_back({4, 3, A2, FULL, MID});
-        sets.push_back({4, 4, A2, ZERODIAG, MID});
-        sets.push_back({4, 4, A2, FULL, CORE});
+        sets.push_back({4, 4, A2, SYMMETRIC, MID});
+        sets.push_back({4, 4, A2, ZERODIAG, CORE});
+        sets.push_back({4, 4, A2, FULL, DET});
     }
     long long total = 0;
     for (auto &s : sets) {
@@ -315,7 +316,7 @@ int main(int argc, char **argv)
     // ---- singular / wide inputs of the algorithms that have no guard (kept small: every failure is a process crash)
     std::vector<MSet> sing = {{2, 2, A2, FULL, ALL, true}, {1, 2, A012, FULL, ALL}};
     if (thorough)
-        sing = {{2, 2, A3, FULL, ALL, true}, {3, 3, A2, SYMMETRIC, ALL, true}, {1, 2, A012, FULL, ALL}, {2, 3, A2, ZERODIAG, ALL}};
+        sing = {{2, 2, A2, FULL, ALL, true}, {3, 3, A2, SYMMETRIC, ALL, true}, {1, 2, A012, FULL, ALL}, {2, 3, A2, ZERODIAG, ALL}};
     long long stotal = 0;
     for (auto &s : sing) {
         s.base = stotal;
